@@ -29,6 +29,9 @@ def jobs_for(tier):
     for path in sorted(glob.glob(os.path.join(config.SPEC, 'WorkersED_%s_*.cfg' % t))):
         jobs.append(('WorkersED', os.path.basename(path)[:-4], None))
     jobs.append(('WorkersED', 'WorkersED_sab_q2', 'Complete'))
+    for path in sorted(glob.glob(os.path.join(config.SPEC, 'WorkersOC_%s_*.cfg' % t))):
+        jobs.append(('WorkersOC', os.path.basename(path)[:-4], None))
+    jobs.append(('WorkersOC', 'WorkersOC_sab', 'Exact'))
     jobs.append(('Projection', 'Projection_%s' % t, None))
     jobs.append(('Projection', 'Projection_sab', 'CellsRight'))
     jobs.append(('Matcher', 'Matcher_%s' % t, None))
